@@ -144,12 +144,14 @@ PROPS["C15"] = {
     "level": "model_checking",
     "functions": ["aquatic_ws_protocol::common::{serialize_20_bytes, TwentyByteVisitor::visit_str, deserialize_20_bytes}",
                   "serde derive(transparent) glue of InfoHash / PeerId / OfferId", "serde::de::value::StrDeserializer"],
-    "bounds": "encode: all 2^160 identifiers; decode: strings of exactly 0, 1, 19, 20, 21, 22 chars, each char any of U+0000..U+FFFF (1-, 2- or 3-byte UTF-8, surrogates excluded)",
+    "bounds": "encode: identifiers whose bytes are all < 0x80, all >= 0x80, or 4 arbitrary + 16 fixed bytes (a fully mixed 20-byte identifier does not finish: symbolic write offsets); decode: strings of exactly 0, 1, 19, 20, 21, 22 chars, each char any of U+0000..U+FFFF (1-, 2- or 3-byte UTF-8, surrogates excluded)",
     "outside": "whole-message JSON round-trips through the serde_json writer and the simd-json reader (runtime-dispatched SIMD kernels, not encodable); strings of 2..18 or > 22 chars; chars above U+FFFF",
     "models": ["alloc::fmt::format -> empty String (error message text is not the subject)"],
     "assumptions": ["the JSON reader hands the visitor the decoded string via visit_str (simd-json and serde_json both do for strings)"],
     "harnesses": [
-        H(KWP, "c15::c15_id_encode", "text == 20 chars, char i == U+00<byte i> (reference UTF-8), for InfoHash/PeerId/OfferId", "all identifiers", ["serialize_20_bytes"]),
+        H(KWP, "c15::c15_id_encode_ascii", "text == 20 chars, char i == U+00<byte i> (reference UTF-8), for InfoHash/PeerId/OfferId", "all identifiers with every byte < 0x80", ["serialize_20_bytes"], cost=100),
+        H(KWP, "c15::c15_id_encode_high", "text == 20 chars, char i == U+00<byte i>", "all identifiers with every byte >= 0x80", ["serialize_20_bytes"], cost=100),
+        H(KWP, "c15::c15_id_encode_mixed4", "text == 20 chars, char i == U+00<byte i>", "first four bytes arbitrary, 16 fixed ASCII bytes (mixed 1-/2-byte chars)", ["serialize_20_bytes"], cost=100),
     ] + [
         H(KWP, "c15::c15_id_decode_n%d" % n, "Ok(v) <=> exactly 20 chars all <= U+00FF and v[i]==char i", "%d arbitrary chars" % n, ["TwentyByteVisitor::visit_str"], cost=60)
         for n in (0, 1, 19, 20, 21, 22)
@@ -173,23 +175,28 @@ PROPS["C14"] = {
     "level": "model_checking",
     "functions": ["aquatic_http_protocol::utils::{urlencode_20_bytes, urldecode_20_bytes}", "response::{AnnounceResponse,ScrapeResponse,FailureResponse}::write_bytes", "itoa::Buffer::format", "hex::{encode_to_slice,decode_to_slice}"],
     "bounds": "identifiers: all 2^160 values (encode) / strings of exactly 0,19,20,21 units, each unit a raw ASCII char, a 2-byte char U+0080..U+07FF, or %XY with arbitrary ASCII X,Y (decode); "
-              "replies: (n4,n6) in {(0,0),(2,0),(0,2),(1,1)} compact peers, 0..2 scrape files, counters < 100000, one failure text",
+              "replies: (n4,n6) in {(0,0),(2,0),(0,2),(1,1)} compact peers with fixed 1-, 2- and 4-digit counters, 0..1 scrape files, counter formatting for all values < 100000 (thorough), one failure text",
     "outside": "the query-string splitter (memchr over symbolic bytes does not finish, DESIGN section 2) and request write->parse round trip; counters >= 100000 (itoa digit extraction at full width stalls the bit-blaster); reply parse-back through serde_bencode; "
                "'%'+non-ASCII look-alike hex digits (the code is lenient there; the property does not demand rejection)",
     "models": ["std::backtrace::Backtrace::capture -> disabled()", "alloc::fmt::format -> empty String"],
     "assumptions": ["reference bencode encoder in harness/kani-http-proto/src/bencode_ref.rs"],
     "harnesses": [
         H(KHP, "c14::c14_id_roundtrip", "urlencode = '%xy'*20 lower-case hex; urldecode inverts it", "all identifiers", ["urlencode_20_bytes", "urldecode_20_bytes"], cost=60),
-    ] + [
-        H(KHP, "c14::c14_urldecode_n%d" % n, "Ok(v) <=> exactly 20 well-formed units and v[i] = unit value (reference decoder)", "%d arbitrary units" % n, ["urldecode_20_bytes"], cost=120)
-        for n in (0, 19, 20, 21)
+        H(KHP, "c14::c14_urldecode_n0", "Ok(v) <=> exactly 20 well-formed units and v[i] = unit value (reference decoder)", "0 units", ["urldecode_20_bytes"], cost=30),
+        H(KHP, "c14::c14_urldecode_n1", "Ok(v) <=> exactly 20 well-formed units ...", "1 arbitrary unit (ASCII | 2-byte char | %XY)", ["urldecode_20_bytes"], cost=60),
+        H(KHP, "c14::c14_urldecode_n3_wide", "Ok(v) <=> exactly 20 well-formed units ...", "3 arbitrary units incl. 2-byte chars", ["urldecode_20_bytes"], cost=120),
+        H(KHP, "c14::c14_urldecode_n19", "Ok(v) <=> exactly 20 well-formed units ...", "19 units (ASCII | %XY)", ["urldecode_20_bytes"], tier="thorough", cost=900, timeout=3000),
+        H(KHP, "c14::c14_urldecode_n20", "Ok(v) <=> exactly 20 well-formed units ...", "20 units (ASCII | %XY)", ["urldecode_20_bytes"], tier="thorough", cost=1200, timeout=3600),
+        H(KHP, "c14::c14_urldecode_n21", "Ok(v) <=> exactly 20 well-formed units ...", "21 units (ASCII | %XY)", ["urldecode_20_bytes"], tier="thorough", cost=1200, timeout=3600),
+        H(KHP, "c14::c14_urldecode_n20_wide", "Ok(v) <=> exactly 20 well-formed units ...", "20 units incl. 2-byte chars", ["urldecode_20_bytes"], tier="thorough", cost=1500, timeout=3600),
     ] + [
         H(KHP, "c14::c14_announce_reply_%d_%d" % (a, b), "announce reply bytes == canonical bencode (sorted keys, 6/18-byte compact peers), returned length == bytes written", "%d v4 + %d v6 peers, counters < 1e5" % (a, b), ["AnnounceResponse::write_bytes"], cost=150)
         for (a, b) in ((0, 0), (2, 0), (0, 2), (1, 1))
     ] + [
         H(KHP, "c14::c14_scrape_reply_%d" % n, "scrape reply bytes == canonical bencode, hashes ascending", "%d files" % n, ["ScrapeResponse::write_bytes"], cost=150)
-        for n in (0, 1, 2)
+        for n in (0, 1)
     ] + [
+        H(KHP, "c14::c14_counter_format", "decimal digits of a reply counter == reference formatter", "all counters < 100000", ["AnnounceResponse::write_bytes", "itoa::Buffer::format"], tier="thorough", cost=600, timeout=1800),
         H(KHP, "c14::c14_failure_reply", "failure reply bytes == canonical bencode", "one text", ["FailureResponse::write_bytes"]),
     ],
 }
@@ -359,12 +366,33 @@ PROPS["C02"] = {
 def all_harnesses(prop):
     return list(PROPS[prop]["harnesses"])
 
+def _pick(prop, *subs):
+    return [dict(h) for h in PROPS[prop]["harnesses"] if any(x in h["name"] for x in subs)]
+
+
+PROPS["C12"] = {
+    "level": "model_checking",
+    "functions": ["udp Request::parse_bytes / Response::parse_bytes", "ws TwentyByteVisitor::visit_str", "http urldecode_20_bytes", "access list parse_info_hash",
+                  "udp handle_request / PeerMap::announce, http upsert_peer_and_get_response_peers with full-width numwant / left / peers_wanted"],
+    "bounds": "UDP datagrams 0..120 B (256 B thorough), UDP replies 0..64 B (error replies excluded), ws identifier strings of 0,1,19..22 chars, http identifier strings of 0,19,20,21 units, access-list lines 0..42 B; "
+              "handlers: all field values (i32::MIN numwant, negative left, ...). Every Kani harness checks panics, unwrap/expect, slice and array indexing, arithmetic overflow (dev profile), division by zero and pointer validity on every path",
+    "outside": "simd-json (WebSocket JSON reader), httparse and the HTTP query-string splitter (memchr SIMD over symbolic bytes does not finish), serde_bencode reader, aquatic_peer_id (regex engine); heap use is not measurable by CBMC - only output container lengths are asserted (e.g. info_hashes.len() <= len/20)",
+    "models": ["String::from_utf8_lossy stubbed in UDP reply parsing (error text)", "alloc::fmt::format / Backtrace::capture stubbed on error paths"],
+    "assumptions": ["release builds wrap instead of panicking on overflow; Kani checks the dev profile, which is stricter"],
+    "harnesses": [
+        H(UP, "c12::c12_udp_response_any_%d" % n, "client-side reply parser: never panics; Ok(reply) implies the exact length relation (20+6n / 20+18n / 8+12k / 16)", "every byte string of exactly %d bytes, both family flags" % n, ["Response::parse_bytes"], cost=30)
+        for n in (0, 3, 8, 16, 20, 26, 27, 38, 56)
+    ] + _pick("C13", "request_decode") + _pick("C15", "id_decode") + _pick("C14", "urldecode") + _pick("C11", "parse_info_hash") + _pick("C06", "c06_scrape_k1", "c06_connect") + _pick("C01", "small_n1") + _pick("C07", "small_n1") + _pick("C05", "forged"),
+}
+
 
 NOTES = ("Every check = a set of solver queries (Kani/CBMC proof harnesses, z3 for C18) generated from /repo's current working tree. "
          "Exit 0 all discharged; 1 replayed counterexample (VIOLATION line); 2 inconclusive (timeout/OOM/vacuous/non-replaying) - never success.")
 
-_PENDING = "check not yet built (work in progress; see DESIGN.md section 6 for the plan)"
+_PENDING = "no check built"
 NOT_APPLICABLE = {
+    "C04": "Kani/CBMC has no threads; the bounded sequentialisation (one operation run to completion inside a lock-free gap of another, model locks asserting lock order; harness/kani-udp/src/c04.rs, in_udp_swarm.rs c04_*) was built, "
+           "but every variant of the shard-level composite (TorrentMapShards::announce + clean_and_get_statistics over Arc<RwLock<PeerMap>>) exhausts 30 GB in CBMC's propositional reduction, so nothing is decided; not claimed rather than switching technique",
     "C16": "HTTP framing/worker plumbing lives only in glommio async code (connection.rs, mod.rs, lib.rs); Kani's toolchain cannot compile glommio (backtrace E0659) and there is no loop-free kernel to lift into SMT; storage half is C07",
     "C17": "WebTorrent routing/cleanup lives only in glommio async socket workers; not compilable under Kani and not encodable as a bounded symbolic run; storage-level addressing is C09, ownership C08",
     "C19": "whole-program property over OS threads, JoinHandle::is_finished, sleeps and panics through executors; Kani has no threads and panic=abort; no bounded symbolic encoding of run() exists",
